@@ -37,25 +37,9 @@ def IsPrimary (g : Graph α) : Nat → List Nat → Prop
 
 theorem mem_succs (x : Node α) (j : Nat) : j ∈ succs x ↔ j ≠ 0 ∧ (x.next = j ∨ x.nextAlt = j) := by
   unfold succs
-  by_cases h1 : x.next = 0 <;> by_cases h2 : x.nextAlt = 0 <;> simp [h1, h2]
-  · intro h; subst h; exact ⟨rfl, rfl⟩
-  · constructor
-    · intro h; subst h; exact ⟨h2, Or.inr rfl⟩
-    · rintro ⟨h0, h | h⟩
-      · exact absurd (h1 ▸ h.symm) h0
-      · exact h.symm
-  · constructor
-    · intro h; subst h; exact ⟨h1, Or.inl rfl⟩
-    · rintro ⟨h0, h | h⟩
-      · exact h.symm
-      · exact absurd (h2 ▸ h.symm) h0
-  · constructor
-    · rintro (h | h)
-      · subst h; exact ⟨h1, Or.inl rfl⟩
-      · subst h; exact ⟨h2, Or.inr rfl⟩
-    · rintro ⟨_, h | h⟩
-      · exact Or.inl h.symm
-      · exact Or.inr h.symm
+  generalize x.next = a
+  generalize x.nextAlt = b
+  by_cases h1 : a = 0 <;> by_cases h2 : b = 0 <;> simp [h1, h2] <;> omega
 
 theorem edge_iff (g : Graph α) (i j : Nat) : Edge g i j ↔ i < g.size ∧ j ∈ succs (nodeAt g i) := by
   unfold Edge; rw [mem_succs]
@@ -209,4 +193,331 @@ theorem exists_primary_walk (g : Graph α) (r : Array Nat) (hl : linksOk g = tru
       exact ⟨(nodeAt g i).next :: l, Walk.cons e w, ⟨rfl, p⟩⟩
 
 end structure_
+/-! ## Part 2: the route automaton -/
+section route
+variable {α : Type} [OfNat α 0]
+
+/-- the automaton run over the nodes of a walk -/
+def runFrom (adj : Array (Nat × Nat)) (origs : List Nat) (g : Graph α) : RSt → List Nat → Option RSt
+  | s, [] => some s
+  | s, i :: l =>
+    match stepEv adj origs s (nodeAt g i) with
+    | some s' => runFrom adj origs g s' l
+    | none => none
+
+def arrOf (x : Node α) : List Nat := if x.ty = .arrive then [x.link] else []
+def clrOf (x : Node α) : List Nat := if x.ty = .clear then [x.link] else []
+
+/-- links entered (arrive events) along a list of nodes, in order -/
+def arrivals (g : Graph α) : List Nat → List Nat
+  | [] => []
+  | i :: l => arrOf (nodeAt g i) ++ arrivals g l
+
+/-- links cleared (clear events) along a list of nodes, in order -/
+def clearings (g : Graph α) : List Nat → List Nat
+  | [] => []
+  | i :: l => clrOf (nodeAt g i) ++ clearings g l
+
+/-- what the automaton state knows about the history: `A` links entered, `C` links cleared -/
+structure Inv (adj : Array (Nat × Nat)) (origs : List Nat) (s : RSt) (A C : List Nat) : Prop where
+  split : A = C ++ s.pending
+  last : s.last = A.getLast?
+  chain : A.IsChain (fun a b => adjOk adj a b = true)
+  orig : ∀ a ∈ A.head?, a ∈ origs
+
+theorem inv_init (adj : Array (Nat × Nat)) (origs : List Nat) : Inv adj origs RSt.init [] [] :=
+  ⟨rfl, rfl, List.isChain_nil, by simp⟩
+
+theorem inv_step (adj : Array (Nat × Nat)) (origs : List Nat) (s s' : RSt) (A C : List Nat) (x : Node α)
+    (hi : Inv adj origs s A C) (hs : stepEv adj origs s x = some s') :
+    Inv adj origs s' (A ++ arrOf x) (C ++ clrOf x) := by
+  obtain ⟨h1, h2, h3, h4⟩ := hi
+  unfold stepEv at hs
+  unfold arrOf clrOf
+  cases hty : x.ty with
+  | fake =>
+    simp only [hty] at hs ⊢
+    cases hs
+    simpa using ⟨h1, h2, h3, h4⟩
+  | arrive =>
+    simp only [hty] at hs ⊢
+    cases hl : s.last with
+    | none =>
+      simp only [hl] at hs
+      split_ifs at hs with ho
+      cases hs
+      have hA : A = [] := by
+        rw [hl] at h2
+        exact List.getLast?_eq_none_iff.mp h2.symm
+      subst hA
+      have hC : C = [] ∧ s.pending = [] := by
+        have := h1.symm; simpa using this
+      refine ⟨?_, ?_, ?_, ?_⟩
+      · simp [hC.1, hC.2]
+      · simp
+      · simp
+      · intro a ha
+        simp at ha; subst ha
+        simpa using ho
+    | some L =>
+      simp only [hl] at hs
+      split_ifs at hs with ha
+      cases hs
+      rw [hl] at h2
+      have hne : A ≠ [] := by
+        intro h; subst h; simp at h2
+      refine ⟨?_, ?_, ?_, ?_⟩
+      · simp [h1, List.append_assoc]
+      · simp
+      · rw [List.isChain_append]
+        refine ⟨h3, List.isChain_singleton _, ?_⟩
+        intro a ha b hb
+        simp at hb; subst hb
+        rw [← h2] at ha
+        simp at ha; subst ha
+        exact ha
+      · intro a ha
+        apply h4
+        cases A with
+        | nil => exact absurd rfl hne
+        | cons a0 t => simpa using ha
+  | clear =>
+    simp only [hty] at hs ⊢
+    cases hp : s.pending with
+    | nil => simp [hp] at hs
+    | cons h t =>
+      simp only [hp] at hs
+      split_ifs at hs with he
+      cases hs
+      refine ⟨?_, ?_, ?_, ?_⟩
+      · simp [h1, hp, he]
+      · simpa using h2
+      · simpa using h3
+      · simpa using h4
+
+theorem arrivals_append (g : Graph α) (l l' : List Nat) :
+    arrivals g (l ++ l') = arrivals g l ++ arrivals g l' := by
+  induction l with
+  | nil => rfl
+  | cons i l ih => simp [arrivals, ih, List.append_assoc]
+
+theorem clearings_append (g : Graph α) (l l' : List Nat) :
+    clearings g (l ++ l') = clearings g l ++ clearings g l' := by
+  induction l with
+  | nil => rfl
+  | cons i l ih => simp [clearings, ih, List.append_assoc]
+
+/-- the invariant is carried along any successful run -/
+theorem run_inv (adj : Array (Nat × Nat)) (origs : List Nat) (g : Graph α) (nodes : List Nat) :
+    ∀ (s s' : RSt) (A C : List Nat), Inv adj origs s A C → runFrom adj origs g s nodes = some s' →
+      Inv adj origs s' (A ++ arrivals g nodes) (C ++ clearings g nodes) := by
+  induction nodes with
+  | nil =>
+    intro s s' A C hi hr
+    simp only [runFrom] at hr; cases hr
+    simpa [arrivals, clearings] using hi
+  | cons i l ih =>
+    intro s s' A C hi hr
+    simp only [runFrom] at hr
+    cases hst : stepEv adj origs s (nodeAt g i) with
+    | none => simp [hst] at hr
+    | some s1 =>
+      simp only [hst] at hr
+      have := ih s1 s' _ _ (inv_step adj origs s s1 A C (nodeAt g i) hi hst) hr
+      simpa [arrivals, clearings, List.append_assoc] using this
+
+/-- a successful run is successful on every prefix -/
+theorem run_prefix (adj : Array (Nat × Nat)) (origs : List Nat) (g : Graph α) (nodes : List Nat) :
+    ∀ (s s' : RSt) (k : Nat), runFrom adj origs g s nodes = some s' →
+      ∃ sk, runFrom adj origs g s (nodes.take k) = some sk := by
+  induction nodes with
+  | nil => intro s s' k _; exact ⟨s, by simp [runFrom]⟩
+  | cons i l ih =>
+    intro s s' k hr
+    cases k with
+    | zero => exact ⟨s, by simp [runFrom]⟩
+    | succ k =>
+      simp only [runFrom] at hr
+      cases hst : stepEv adj origs s (nodeAt g i) with
+      | none => simp [hst] at hr
+      | some s1 =>
+        simp only [hst] at hr
+        obtain ⟨sk, hk⟩ := ih s1 s' k hr
+        exact ⟨sk, by simp [runFrom, hst, hk]⟩
+
+/-- the checker's state sets contain the state of every walk: lifted from links to walks by induction -/
+theorem run_in_states (adj : Array (Nat × Nat)) (origs : List Nat) (g : Graph α) (st : Array (List RSt))
+    (hl : ∀ i < g.size, routeLinkOk adj origs g st i = true) {i k : Nat} {l : List Nat} (w : Walk g i l k) :
+    ∀ s ∈ st.getD i [], ∃ s', runFrom adj origs g s l = some s' ∧ s' ∈ st.getD k [] := by
+  induction w with
+  | nil i => intro s hs; exact ⟨s, rfl, hs⟩
+  | @cons i j k l e _ ih =>
+    intro s hs
+    have h := hl i e.1
+    unfold routeLinkOk at h
+    simp only [List.all_eq_true] at h
+    have h := h j ((edge_iff g i j).mp e).2 s hs
+    cases hst : stepEv adj origs s (nodeAt g j) with
+    | none => simp [hst] at h
+    | some s1 =>
+      simp only [hst, decide_eq_true_eq] at h
+      obtain ⟨s', hr, hm⟩ := ih s1 h
+      exact ⟨s', by simp [runFrom, hst, hr], hm⟩
+
+end route
+
+/-! ## Part 3: times along walks -/
+section times
+variable {α : Type} [Field α] [LinearOrder α] [IsStrictOrderedRing α]
+
+/-- duration of one link: an `idx_next` link takes its source's `time_to_next`, an alternate link no time -/
+def stepDur (g : Graph α) (i j : Nat) : α := if (nodeAt g i).next = j then (nodeAt g i).ttn else 0
+
+/-- duration of a walk = sum of the durations of its links -/
+def walkDur (g : Graph α) : Nat → List Nat → α
+  | _, [] => 0
+  | i, j :: l => stepDur g i j + walkDur g j l
+
+theorem walkDur_snoc (g : Graph α) {i p : Nat} {l : List Nat} (w : Walk g i l p) (k : Nat) :
+    walkDur g i (l ++ [k]) = walkDur g i l + stepDur g p k := by
+  induction w with
+  | nil i => simp [walkDur]
+  | cons _ _ ih => simp only [List.cons_append, walkDur, ih]; ring
+
+theorem fin_set (finite : α → Bool) (g : Graph α) (h : finOk finite g = true) {i : Nat} (hi : i < g.size) :
+    ∃ t, (nodeAt g i).ts = some t ∧ tsv (nodeAt g i) = t := by
+  unfold finOk at h
+  simp only [List.all_eq_true, List.mem_range, Bool.and_eq_true] at h
+  have := (h i hi).1
+  cases hts : (nodeAt g i).ts with
+  | none => simp [hts] at this
+  | some t => exact ⟨t, rfl, by simp [tsv, hts]⟩
+
+theorem tight_at (tol : α) (g : Graph α) (h : tightOk tol g = true) {i : Nat} (hi : i < g.size)
+    (hn : (nodeAt g i).next ≠ 0) :
+    |tsv (nodeAt g (nodeAt g i).next) - (tsv (nodeAt g i) + (nodeAt g i).ttn)| ≤ tol := by
+  unfold tightOk at h
+  simp only [List.all_eq_true, List.mem_range, Bool.or_eq_true, decide_eq_true_eq] at h
+  rcases h i hi with h | h
+  · exact absurd h hn
+  · rwa [Basic.absv_eq_abs] at h
+
+theorem alt_at (tol : α) (g : Graph α) (h : altOk tol g = true) {i : Nat} (hi : i < g.size)
+    (hn : (nodeAt g i).nextAlt ≠ 0) :
+    tsv (nodeAt g (nodeAt g i).nextAlt) ≤ tsv (nodeAt g i) + tol := by
+  unfold altOk at h
+  simp only [List.all_eq_true, List.mem_range, Bool.or_eq_true, decide_eq_true_eq] at h
+  rcases h i hi with h | h
+  · exact absurd h hn
+  · exact h
+
+/-- one link: the target is not scheduled later than the source allows (up to `tol`) -/
+theorem edge_upper (tol : α) (g : Graph α) (ht : tightOk tol g = true) (ha : altOk tol g = true)
+    {i j : Nat} (e : Edge g i j) : tsv (nodeAt g j) ≤ tsv (nodeAt g i) + stepDur g i j + tol := by
+  obtain ⟨hi, h0, hj⟩ := e
+  unfold stepDur
+  by_cases hn : (nodeAt g i).next = j
+  · rw [if_pos hn]
+    have := tight_at tol g ht hi (hn ▸ h0)
+    rw [hn] at this
+    have := (abs_le.mp this).2
+    linarith
+  · rw [if_neg hn]
+    rcases hj with hj | hj
+    · exact absurd hj hn
+    · have := alt_at tol g ha hi (hj ▸ h0)
+      rw [hj] at this
+      linarith
+
+/-- every walk: the end is scheduled no later than start + duration of the walk (+ one `tol` per link) -/
+theorem walk_upper (tol : α) (g : Graph α) (ht : tightOk tol g = true) (ha : altOk tol g = true)
+    {i k : Nat} {l : List Nat} (w : Walk g i l k) :
+    tsv (nodeAt g k) ≤ tsv (nodeAt g i) + walkDur g i l + (l.length : α) * tol := by
+  induction w with
+  | nil i => simp [walkDur]
+  | cons e _ ih =>
+    have := edge_upper tol g ht ha e
+    simp only [walkDur, List.length_cons, Nat.cast_add, Nat.cast_one]
+    linarith
+
+/-- a walk along primary links attains it -/
+theorem primary_lower (tol : α) (g : Graph α) (ht : tightOk tol g = true)
+    {i k : Nat} {l : List Nat} (w : Walk g i l k) (hp : IsPrimary g i l) :
+    tsv (nodeAt g i) + walkDur g i l ≤ tsv (nodeAt g k) + (l.length : α) * tol := by
+  induction w with
+  | nil i => simp [walkDur]
+  | @cons i j k l e _ ih =>
+    obtain ⟨hn, hp'⟩ := hp
+    have h1 := tight_at tol g ht e.1 (hn ▸ e.2.1)
+    rw [hn] at h1
+    have h1 := (abs_le.mp h1).1
+    have h2 := ih hp'
+    simp only [walkDur, stepDur, if_pos hn, List.length_cons, Nat.cast_add, Nat.cast_one]
+    linarith
+
+/-! ### the forward pass's output -/
+
+theorem fwd_facts (depart : α) (g : Graph α) (h : fwdTimesOk depart g = true) :
+    tsv (nodeAt g 0) = depart ∧ ∀ j < g.size,
+      (j ≠ 0 → tsv (nodeAt g j) = tsv (nodeAt g (nodeAt g j).prev) + stepDur g (nodeAt g j).prev j) ∧
+      (∀ k, Edge g j k → tsv (nodeAt g k) ≤ tsv (nodeAt g j) + stepDur g j k) := by
+  unfold fwdTimesOk at h
+  simp only [Bool.and_eq_true, List.all_eq_true, List.mem_range, Bool.or_eq_true, decide_eq_true_eq] at h
+  refine ⟨(Basic.eqb_iff _ _).mp h.1, fun j hj => ⟨fun h0 => ?_, fun k e => ?_⟩⟩
+  · have := (h.2 j hj).1.1
+    rcases this with this | this
+    · exact absurd this h0
+    · unfold stepDur
+      by_cases hn : (nodeAt g (nodeAt g j).prev).next = j
+      · rw [if_pos hn] at this ⊢; exact (Basic.eqb_iff _ _).mp this
+      · rw [if_neg hn] at this ⊢; rw [(Basic.eqb_iff _ _).mp this]; ring
+  · obtain ⟨_, h0, hk⟩ := e
+    unfold stepDur
+    by_cases hn : (nodeAt g j).next = k
+    · rw [if_pos hn]
+      rcases (h.2 j hj).1.2 with h1 | h1
+      · exact absurd (hn ▸ h1) h0
+      · rwa [hn] at h1
+    · rw [if_neg hn]
+      rcases hk with hk | hk
+      · exact absurd hk hn
+      · rcases (h.2 j hj).2 with h1 | h1
+        · exact absurd (hk ▸ h1) h0
+        · rw [hk] at h1; linarith
+
+theorem fwd_walk_upper (depart : α) (g : Graph α) (h : fwdTimesOk depart g = true)
+    {i k : Nat} {l : List Nat} (w : Walk g i l k) :
+    tsv (nodeAt g k) ≤ tsv (nodeAt g i) + walkDur g i l := by
+  induction w with
+  | nil i => simp [walkDur]
+  | cons e _ ih =>
+    have := ((fwd_facts depart g h).2 _ e.1).2 _ e
+    simp only [walkDur]; linarith
+
+/-- every node is reached from the start by a walk (along `idx_prev`) that attains its scheduled time -/
+theorem fwd_attained (depart : α) (g : Graph α) (r : Array Nat) (hl : linksOk g = true)
+    (hr : rankOk g r = true) (h : fwdTimesOk depart g = true) :
+    ∀ d k, k < g.size → r.getD k 0 ≤ d →
+      ∃ l, Walk g 0 l k ∧ tsv (nodeAt g k) = depart + walkDur g 0 l := by
+  intro d
+  induction d with
+  | zero =>
+    intro k hk hd
+    by_cases h0 : k = 0
+    · subst h0; exact ⟨[], Walk.nil 0, by simp [walkDur, (fwd_facts depart g h).1]⟩
+    · have e := prev_edge g hl hk h0
+      have := (rank_facts g r hr e.1).2 _ e
+      omega
+  | succ d ih =>
+    intro k hk hd
+    by_cases h0 : k = 0
+    · subst h0; exact ⟨[], Walk.nil 0, by simp [walkDur, (fwd_facts depart g h).1]⟩
+    · have e := prev_edge g hl hk h0
+      have hrk := (rank_facts g r hr e.1).2 _ e
+      obtain ⟨l, w, ht⟩ := ih (nodeAt g k).prev e.1 (by omega)
+      refine ⟨l ++ [k], walk_snoc g w e, ?_⟩
+      rw [walkDur_snoc g w k, ((fwd_facts depart g h).2 k hk).1 h0, ht]; ring
+
+end times
+
 end Altrios.Proofs.EstL
